@@ -89,6 +89,9 @@ type vTokenResp struct {
 // an address, the name of a proxy in front; what the server says about ITSELF (issuer) does not depend on it
 var vRedeemHost string
 
+// client_id the form of a "header_formid" redemption carries (the code's client)
+var vRedeemFormClientID string
+
 func (w *vWorld) redeem(code, client, secret, verifier, redirect, via string) (vResp, vTokenResp) {
 	form := url.Values{"grant_type": {"authorization_code"}, "redirect_uri": {redirect}, "code": {code}}
 	if verifier != "" {
@@ -97,6 +100,10 @@ func (w *vWorld) redeem(code, client, secret, verifier, redirect, via string) (v
 	q := vReq{Method: "POST", Path: idpOpenIDCTokenPath, Form: form, Host: vRedeemHost}
 	if via == "header" {
 		q.Basic = []string{client, secret}
+	} else if via == "header_formid" {
+		// the caller authenticates in the header; the form names the client the code was issued to
+		q.Basic = []string{client, secret}
+		form.Set("client_id", vRedeemFormClientID)
 	} else {
 		form.Set("client_id", client)
 		if secret != "" {
@@ -554,6 +561,7 @@ func runC12In(w *vWorld, cases []map[string]interface{}, ev *vEvents, base int) 
 		if vStr(c, "via") == "form" {
 			vRedeemHost = "km-alias.internal.example:8443"
 		}
+		vRedeemFormClientID = clientID[vStr(c, "codeclient")]
 		r, tr := w.redeem(code, clientID[caller], secret, verifier, redirect, vStr(c, "via"))
 		vRedeemHost = ""
 		released := r.Status == 200 && (tr.IDToken != "" || tr.AccessToken != "")
